@@ -24,6 +24,7 @@ fn main() {
         "vpl-run" => vplrun::main(rest),
         "expr-replay" => expr::replay(rest),
         "cmp-edge" => expr::cmp_edge(rest),
+        "expr-total" => expr::total(rest),
         "zdd-pairs" => zdd::pairs(rest),
         "zdd-machine" => zdd::machine(rest),
         other => {
